@@ -553,7 +553,7 @@ func reuseRealExpressions(thorough bool) []string {
 
 func init() {
 	register(&Rule{ID: "REUSE.instances", Floor: 3,
-		Doc: "every ordered pair of a pool of well-formed and malformed inputs processed by one parser / one calculator (also after a failed evaluation) / one template instance on the abstract machine: the second result (program and variable names; operations, operand order and result; rendering or error code) equals what a freshly constructed instance gives",
+		Doc: "every ordered pair of a pool of well-formed and malformed inputs processed by one parser / one calculator (also after a failed evaluation) / one template instance on the abstract machine: the second result (program and variable names; operations, operand order and result; rendering or error code) equals what a freshly constructed instance gives; the calculator as shipped (default functions and operations, default variables with values): an expression evaluated three times and a later expression reading the same variables give the values of a fresh calculator",
 		Run: func(c *Ctx) []*Obligation {
 			o := newObl("REUSE.instances")
 			res := c.reuseRun()
